@@ -295,8 +295,14 @@ func drive(ck *Check, tier string, seed int64) int {
 	var knownHit []string
 	for _, v := range final {
 		if kf := known.Match(&v); kf != "" {
-			fmt.Printf("KNOWN-FINDING: property=%s %s\n", ck.ID, kf)
-			knownHit = append(knownHit, kf)
+			dup := false
+			for _, o := range knownHit {
+				dup = dup || o == kf
+			}
+			if !dup {
+				fmt.Printf("KNOWN-FINDING: %s\n", kf)
+				knownHit = append(knownHit, kf)
+			}
 			continue
 		}
 		b, _ := json.MarshalIndent(v, "", " ")
